@@ -284,7 +284,8 @@ class Bits:
 
     def _repr(self, classname: str, length: int, pos: int):
         pos_string = f', pos={pos}' if pos else ''
-        if hasattr(self, '_filename') and self._filename:
+        if hasattr(self, '_filename') and self._filename and self._bitstore.immutable:
+            # Still the read-only view of the file (a BitArray / BitStream owns a copy that may have been changed).
             return f"{classname}(filename={self._filename!r}, length={length}{pos_string})"
         else:
             s = self.__str__()
